@@ -343,6 +343,55 @@ def idiom_c(body, wl):
                  "body proceeds only then (6 cases)", rows
 
 
+def idiom_d(body, wl):
+    """Traversal of a finite tree with an explicit stack: every item that is pushed carries, in each
+    field of a recursive type (a reference to / box of the type the popped payload has), a strict
+    sub-part of the popped item's payload; items without such a field push nothing further. The
+    multiset of payload sizes decreases, so the loop terminates."""
+    from .rules_thompson import Sym, contains, _is_call
+    lex = wl.get("lex")
+    if lex is None:
+        return False, "no crate information"
+    blocks = body["mir"]["blocks"]
+    sym = Sym(body, {}, crate=lex)
+    W = wl["W"]
+
+    def from_pop(t):
+        return contains(t, lambda x: _is_call(x, "Vec::pop") and x[3] and x[3][0] == W)
+    n = 0
+    for pb in wl["pushes"]:
+        t = blocks[pb]["term"]
+        v = sym.operand(t["args"][1])
+        if (norm_path(t.get("resp") or t["f"].get("path")) or "").endswith("Extend>::extend"):
+            v = sym.elem(v)
+        alts = list(v[1]) if v[0] == "phi" else [v]
+        for a in alts:
+            if not (a[0] == "agg" and a[1].startswith("adt:")):
+                return False, "a pushed value is not a freshly built item"
+            path, variant = a[1][4:].rsplit(":", 1)
+            adt = lex.adt(path)
+            if adt is None:
+                return False, "unknown item type %s" % path
+            fields = next((vv["fields"] for vv in adt["variants"] if vv["name"] == variant), None)
+            if fields is None or len(fields) != len(a[2]):
+                return False, "item shape not understood"
+            # recursive fields: same type as some payload field that the traversal descends into
+            for f, op in zip(fields, a[2]):
+                if not from_pop(op):
+                    if "&" in f["ty"] or "Box<" in f["ty"]:
+                        return False, "a pushed %s.%s does not come from the popped item" % (variant, f["name"])
+                    continue
+                if not ("&" in f["ty"] or "Box<" in f["ty"]):
+                    continue        # plain data copied from the popped item (state indices, flags)
+                downs = [p for p in op[2] if p[0] == "as"] if op[0] == "path" else []
+                if len(downs) < 3:  # Some, the item's variant, and at least one variant of the payload
+                    return False, "pushed %s.%s is not a strict sub-part of the popped payload" % (variant, f["name"])
+                n += 1
+    if n == 0:
+        return False, "no pushed item descends into the popped payload"
+    return True, "every pushed item descends into a strict sub-part of the popped payload (%d descents)" % n
+
+
 def push_flag_sources(body, wl):
     """For a worklist of (item, flag) tuples: the local each push takes its flag from.
     Returns {push block: source local or a printed operand}."""
@@ -401,51 +450,66 @@ def check_rwl(ctx, prog):
             oka, wa = idiom_a(b, wl)
             okb, wb = idiom_b(b, wl)
             okc, wc, _ = idiom_c(b, wl)
-            which = "A" if oka else "B" if okb else "C" if okc else None
+            okd, wd = (False, "") if (oka or okb or okc) else idiom_d(b, wl)
+            which = "A" if oka else "B" if okb else "C" if okc else "D" if okd else None
             ctx.ob("R-WL", "worklist loop in %s makes progress (idiom %s: %s)" % (
-                name, which, wa if oka else wb if okb else wc if okc else "none"),
+                name, which, wa if oka else wb if okb else wc if okc else wd if okd else "none"),
                 which is not None, key="R-WL:%s" % name,
                 where="%s (loop head bb%d)" % (b["span"], wl["head"]),
-                detail={"A": wa, "B": wb, "C": wc,
+                detail={"A": wa, "B": wb, "C": wc, "D": wd,
                         "meaning": "a worklist whose pushes are not bounded by a growing visited "
                                    "set / monotone map may never empty: macro expansion hangs, or "
                                    "flags depend on visit order"})
-            ctx.sample({"worklist": name, "idiom": which, "why": wa if oka else wb if okb else wc})
-    for name in sorted(EXPECTED_WORKLISTS):
-        ctx.ob("R-WL", "worklist loop of %s found" % name, name in found,
-               key="R-WL:anchor:%s" % name,
-               detail="the function no longer contains a Vec-pop/push worklist loop: the rule "
-                      "cannot establish termination of this pass")
-    ctx.floor("worklist loops in crate lexgen", sum(len(v) for v in found.values()), 3)
-    # update_backtracks specifically must be monotone (C): flags = OR over all visits
-    ub = lex.body("dfa::backtrack::update_backtracks")
-    if ub is not None:
-        for wl in worklist_loops(ub, lex):
-            okc, wc, rows = idiom_c(ub, wl)
-            oka, wa = idiom_a(ub, wl)
-            ctx.ob("R-WL", "update_backtracks: a state's backtrack flag is only ever raised "
-                   "(monotone) or each (state, flag) pair is visited once", okc or oka,
-                   key="R-WL:update_backtracks:monotone", where=ub["span"], detail=wc)
-            from .rules_thompson import Sym, project, show as show_term
-            sym = Sym(ub, {1: "dfa"}, crate=lex)
-            flags = {}
-            for pb in wl["pushes"]:
-                t = ub["mir"]["blocks"][pb]["term"]
-                v = sym.operand(t["args"][1])
-                if (norm_path(t.get("resp") or t["f"].get("path")) or "").endswith("Extend>::extend"):
-                    v = sym.elem(v)
-                flags[pb] = project(v, (("f", 1),))
-            shown = {("bb%d" % b): show_term(v)[:120] for b, v in sorted(flags.items())}
-            ctx.ob("R-WL", "update_backtracks: all successors are queued with the same flag "
-                   "(sibling agreement over %d queueing site(s))" % len(flags),
-                   len(flags) == len(wl["pushes"]) and len(set(flags.values())) == 1 and len(flags) >= 1
-                   and not any(v[0] in ("path", "elem") and v == ("nothing",) for v in flags.values()),
-                   key="R-WL:update_backtracks:siblings", where=ub["span"],
-                   detail={"flag per queueing site": shown,
-                           "meaning": "the char, range, `_` and end-of-input successors of a state "
-                                      "must inherit the same backtrack flag; a push that passes a "
-                                      "different value leaves one kind of successor unmarked (that all "
-                                      "four kinds are visited is R-EXH)"})
+            ctx.sample({"worklist": name, "idiom": which, "why": wa if oka else wb if okb else wc if okc else wd})
+    ctx.floor("worklist loops in crate lexgen (state closure, subset construction, backtrack flags)",
+              sum(len(v) for v in found.values()), 3)
+    # the worklist whose items carry a boolean flag (the backtrack pass, wherever it lives): the flag of
+    # a state must be monotone (C) - flags = OR over all visits - and all successors inherit one flag
+    from .rules_thompson import Sym, project, show as show_term
+    flagged = []
+    for name, wls in sorted(found.items()):
+        fb = lex.body(name)
+        for wl in wls:
+            ty = fb["mir"]["locals"][fb["mir"]["blocks"][wl["pop"]]["term"]["dest"]["l"]]
+            m = re.match(r"^std::option::Option<(.+)>$", ty)
+            et = m.group(1) if m else ""
+            has_flag = (et.startswith("(") and "bool" in et)
+            adt = lex.adt(et) if et and not et.startswith("(") else None
+            if adt is not None and len(adt["variants"]) == 1:
+                has_flag = any(f["ty"] == "bool" for f in adt["variants"][0]["fields"])
+            if has_flag:
+                flagged.append((name, fb, wl, adt))
+    ctx.ob("R-WL", "the pass that computes the backtrack flags (a worklist of (state, flag) items) is found",
+           len(flagged) == 1, key="R-WL:anchor:flags", detail=[n for n, _, _, _ in flagged])
+    for name, ub, wl, adt in flagged:
+        okc, wc, rows = idiom_c(ub, wl)
+        oka, wa = idiom_a(ub, wl)
+        ctx.ob("R-WL", "update_backtracks: a state's backtrack flag is only ever raised "
+               "(monotone) or each (state, flag) pair is visited once", okc or oka,
+               key="R-WL:update_backtracks:monotone", where=ub["span"], detail=wc)
+        sym = Sym(ub, {}, crate=lex)
+        flag_path = (("f", 1),)
+        if adt is not None:
+            fields = [f["name"] for f in adt["variants"][0]["fields"]]
+            flag_path = (("f", [f["ty"] for f in adt["variants"][0]["fields"]].index("bool")),)
+        flags = {}
+        for pb in wl["pushes"]:
+            t = ub["mir"]["blocks"][pb]["term"]
+            v = sym.operand(t["args"][1])
+            if (norm_path(t.get("resp") or t["f"].get("path")) or "").endswith("Extend>::extend"):
+                v = sym.elem(v)
+            flags[pb] = project(v, flag_path)
+        shown = {("bb%d" % b): show_term(v)[:120] for b, v in sorted(flags.items())}
+        ctx.ob("R-WL", "update_backtracks: all successors are queued with the same flag "
+               "(sibling agreement over %d queueing site(s))" % len(flags),
+               len(flags) == len(wl["pushes"]) and len(set(flags.values())) == 1 and len(flags) >= 1
+               and not any(v == ("nothing",) for v in flags.values()),
+               key="R-WL:update_backtracks:siblings", where=ub["span"],
+               detail={"flag per queueing site": shown,
+                       "meaning": "the char, range, `_` and end-of-input successors of a state "
+                                  "must inherit the same backtrack flag; a push that passes a "
+                                  "different value leaves one kind of successor unmarked (that all "
+                                  "four kinds are visited is R-EXH)"})
     return found
 
 
@@ -517,7 +581,7 @@ def check_rexh(ctx, prog):
                                       "not all silently ignores the others"})
         # aggregate construction of dfa::State with all fields is also a 'treatment' (add_dfa,
         # simplify) and is covered by the reads of the destructured value
-    ctx.floor("functions handling several DFA transition kinds", len(inst), 6)
+    ctx.floor("functions handling several DFA transition kinds", len(inst), 3)
     # NFA side: accessor calls
     ninst = []
     for b in lex.bodies:
@@ -673,20 +737,28 @@ def regex_nodes_built(body):
 
 
 def discover_parser_levels(lex):
-    """The five precedence levels of the regex parser, found by the nodes they build (so that renaming
-    them does not matter): {level key: function path}. Level keys are the historical names."""
+    """The five precedence levels of the regex parser: {historical name: function path}. A level is the
+    function of that name if it exists; otherwise the one function of module `ast` that builds one of
+    the level's node kinds (so that renaming the levels does not matter, and a level that builds a
+    wrong node is still that level)."""
     want = {"parse_regex_0": {"Or"}, "parse_regex_1": {"Concat"},
             "parse_regex_2": {"ZeroOrMore", "ZeroOrOne", "OneOrMore"}, "parse_regex_3": {"Diff"},
             "parse_regex_4": {"Char", "String"}}
     found = {}
+    for k in want:
+        if lex.raw_body("ast::" + k) is not None:
+            found[k] = ["ast::" + k]
+    named = {v[0] for v in found.values()}
     for b in lex.bodies:
         name = norm_path(b["path"])
-        if not name.startswith("ast::") or "{closure" in name or name.startswith("<") or b["from_expansion"]:
+        if not name.startswith("ast::") or "{closure" in name or name.startswith("<") or b["from_expansion"] \
+                or name in named:
             continue
         built = regex_nodes_built(b)
         for k, w in want.items():
-            if built and w <= built and not (built - w - ({"Builtin", "Var", "EndOfInput", "CharSet", "Any"}
-                                                         if k == "parse_regex_4" else set())):
+            if k in found and found[k][0] in named:
+                continue
+            if built & w:
                 found.setdefault(k, []).append(name)
     return {k: v[0] for k, v in found.items() if len(v) == 1}
 
@@ -718,6 +790,13 @@ def check_rparse(ctx, prog):
         if rb is not None:
             fn[opt] = level_body("ast::" + opt)
     disp = {k: levels[k].split("::")[-1] for k in levels}
+    indirect = [disp[k] for k in ("parse_regex_0", "parse_regex_1", "parse_regex_2", "parse_regex_3")
+                if not regex_nodes_built(fn[k])]
+    if indirect:
+        ctx.notes.append("R-PARSE: level(s) %s build their nodes indirectly (a constructor passed as a function "
+                         "value to a generic helper); the layered shape cannot be read off, precedence and "
+                         "associativity are decided by the prec / ops witness families only" % ", ".join(indirect))
+        return
     # layering: each level parses its operands with the next level only
     order = ["parse_regex_0", "parse_regex_1", "parse_regex_2", "parse_regex_3", "parse_regex_4"]
     for i, k in enumerate(order[:-1]):
@@ -889,7 +968,42 @@ def scope_analysis(lex):
     calls = sym.all_calls()
     regs = [(bi, a) for bi, c, a in calls if c == "nfa::NFA::add_regex" and len(a) >= 3]
     roots = {strip_clone(a[1]) for bi, a in regs}
-    return {"body": b, "sym": sym, "calls": calls, "regs": regs, "roots": roots}
+    out = {"body": b, "sym": sym, "calls": calls, "regs": regs, "roots": roots, "undo": False}
+    if len(roots) == 1:
+        B = next(iter(roots))
+        # "scoped by undo": a rule set's `let`s are inserted into the shared map only through a vacant
+        # entry, each inserted variable is recorded in a list, and every recorded variable is removed
+        # from the map again (after the rule set)
+        ins_keys = set()
+        vacant_only = True
+        for bi, c, a in calls:
+            if a and a[0] == B and len(a) > 1 and term_has(a[1], lambda y: y == ("as", "RuleSet")):
+                if c.endswith("HashMap::entry"):
+                    ins_keys.add(strip_clone(a[1]))
+                elif c.endswith("HashMap::insert"):
+                    vacant_only = False
+        recorded = {}
+        for bi, c, a in calls:
+            if c == "std::vec::Vec::push" and len(a) == 2:
+                v = strip_clone(a[1])
+                if v in ins_keys:
+                    recorded.setdefault(a[0], set()).add(v)
+                else:
+                    # `entry.key().clone()`: the key of the very entry the variable is inserted through
+                    for k in ins_keys:
+                        if term_has(v, lambda y, k=k: isinstance(y, tuple) and len(y) == 4 and y[0] == "call"
+                                    and y[1].endswith("HashMap::entry") and y[3][0] == B
+                                    and strip_clone(y[3][1]) == k):
+                            recorded.setdefault(a[0], set()).add(k)
+        removed_lists = set()
+        for bi, c, a in calls:
+            if c.endswith("HashMap::remove") and a and a[0] == B and len(a) > 1:
+                for lst in recorded:
+                    if term_has(a[1], lambda y, lst=lst: y == ("elem", lst)):
+                        removed_lists.add(lst)
+        out["undo"] = bool(ins_keys) and vacant_only and any(
+            recorded.get(lst) == ins_keys for lst in removed_lists)
+    return out
 
 
 def check_rscope(ctx, prog):
@@ -912,8 +1026,9 @@ def check_rscope(ctx, prog):
         in_rule_set = term_has(a[2], lambda y: y == ("as", "RuleSet"))
         if in_rule_set:
             n_rs += 1
-            ctx.ob("R-SCOPE", "a rule of a rule set is compiled against a clone of the top-level bindings",
-                   a[1] != B, key="R-SCOPE:clone", where=sym.blocks[bi].get("span"),
+            ctx.ob("R-SCOPE", "a rule of a rule set is compiled against a clone of the top-level bindings (or "
+                   "against the shared map with the rule set's `let`s undone afterwards)",
+                   a[1] != B or sa["undo"], key="R-SCOPE:clone", where=sym.blocks[bi].get("span"),
                    detail={"bindings": show_term(a[1])[:200],
                            "meaning": "a rule set's `let`s must not become visible in later rule sets"})
         else:
@@ -936,7 +1051,10 @@ def check_rscope(ctx, prog):
             continue
         n_mut += 1
         key = a[1] if len(a) > 1 else ("nothing",)
-        if not term_has(key, lambda y: y == ("as", "Binding")) or term_has(key, lambda y: y == ("as", "RuleSet")):
+        from_rule_set = term_has(key, lambda y: y == ("as", "RuleSet"))
+        if sa["undo"] and (from_rule_set or c.endswith("HashMap::remove")):
+            continue            # inserted through a vacant entry, recorded, and removed again
+        if not term_has(key, lambda y: y == ("as", "Binding")) or from_rule_set:
             bad.append((c, show_term(key)[:160]))
     ctx.ob("R-SCOPE", "the top-level bindings only ever receive top-level `let` items", not bad and n_mut >= 1,
            key="R-SCOPE:mut", where=b["span"], detail={"other writers": bad, "writers": n_mut})
@@ -949,6 +1067,7 @@ def diverges_after(blocks, start, dom=None, limit=40):
     seen = set()
     work = [start]
     steps = 0
+    panics = 0
     while work:
         b = work.pop()
         if b in seen:
@@ -961,11 +1080,12 @@ def diverges_after(blocks, start, dom=None, limit=40):
         if t["k"] == "return":
             return False
         if t["k"] == "call" and t["t"] < 0:
+            panics += 1
             continue
         if t["k"] in ("unreachable", "unwind"):
-            continue
+            continue        # an infeasible arm of an exhaustive match: not a rejection by itself
         work.extend(cfg.succs(blocks, b))
-    return True
+    return panics > 0
 
 
 def switch_after_call(blocks, bi):
@@ -1108,7 +1228,8 @@ def check_rchk(ctx, prog):
             if isinstance(t, tuple) and len(t) == 4 and t[0] == "call" and \
                     any(t[1].endswith(m) for m in MAP_TESTS) and len(t[3]) >= 2 and \
                     term_has(t[3][1], lambda y: y == ("as", "Binding")):
-                seen_scopes.add("top" if t[3][0] == B else "rule set")
+                in_rs = term_has(t[3][1], lambda y: y == ("as", "RuleSet"))
+                seen_scopes.add("rule set" if (t[3][0] != B or in_rs) else "top")
             return False
         for term, bi in gd:
             term_has(term, grab)
@@ -1191,32 +1312,18 @@ def check_rchk(ctx, prog):
         tce = [bi for bi, c, t in cfg.calls_in(blocks) if c == "syn::Error::to_compile_error"]
         site("lexer: a syntax error from the parser becomes a compile error", "parse-error",
              bool(tce), b["span"], {"sites": len(tce)})
-    # 9. operands of `#`: arms of regex_to_range_map for non-class nodes diverge
-    rm = lex.body("regex_to_nfa::regex_to_range_map")
-    if rm is not None:
-        blocks = rm["mir"]["blocks"]
-        regex = lex.adt("ast::Regex")
-        vnames = [v["name"] for v in regex["variants"]] if regex else []
-        sw = None
-        for bb in blocks:
-            if bb["term"]["k"] == "switch" and any(
-                    (st.get("rv") or {}).get("k") == "discr" for st in bb["st"]):
-                sw = bb["term"]
-                break
-        must_div = {"String", "ZeroOrMore", "OneOrMore", "ZeroOrOne", "Concat", "EndOfInput"}
-        if sw is not None and vnames:
-            arms = dict((v, t) for v, t in sw["arms"])
-            for i, vn in enumerate(vnames):
-                tgt = arms.get(i, sw["else"])
-                div = diverges_after(blocks, tgt)
-                if vn in must_div:
-                    site("`#` operand of kind %s is rejected" % vn, "diff:" + vn, div, rm["span"])
-                else:
-                    site("`#` operand of kind %s is evaluated as a class" % vn, "diffok:" + vn,
-                         not div, rm["span"])
-        else:
-            site("regex_to_range_map dispatches on the regex kind", "diff:dispatch", False, rm["span"])
-    ctx.floor("R-CHK rejection sites", n, 20)
+    # 9. operands of `#` that are not classes are rejected: R-CLASS's per-variant obligations
+    #    (rules_thompson.check_rclassdispatch: the arm panics, or returns an error value on which add_re
+    #    panics), replayed here under R-CHK
+    from .report import Ctx as _Ctx
+    from .rules_thompson import check_rclassdispatch
+    tmp = _Ctx("tmp")
+    check_rclassdispatch(tmp, prog)
+    for rule, desc, ok in tmp.obligations:
+        if "rejected" in desc:
+            vn = desc.split(" ")[0]
+            site("`#` operand: " + desc, "diff:" + vn, ok, None)
+    ctx.floor("R-CHK rejection sites", n, 14)
 
 
 # ------------------------------------------------------------------------------------ R-FLOW / R-ORDER
@@ -1352,7 +1459,9 @@ def check_rflow(ctx, prog):
                key="R-FLOW:anchor:%s" % name)
     # closure: every builder target goes through compute_state_closure
     ncl = len([1 for _, c, _ in cfg.calls_in(blocks) if c == "nfa::NFA::compute_state_closure"])
-    ctx.floor("epsilon-closure calls in nfa_to_dfa", ncl, 5)
+    # (that each single target set is closed is R-SUBSET's per-site obligation; this only guards
+    # against the closure having moved out of the function altogether)
+    ctx.floor("epsilon-closure calls in nfa_to_dfa", ncl, 1)
 
 
 def check_rorder(ctx, prog):
@@ -1369,6 +1478,12 @@ def check_rorder(ctx, prog):
             ty = b["mir"]["locals"][t["dest"]["l"]]
             if "std::collections::BTreeSet<nfa::StateIdx>" in ty:
                 ok = True
+            m = re.match(r"^std::option::Option<([\w:]+)(<.*>)?>$", ty)
+            adt = lex.adt(m.group(1)) if m else None
+            if adt is not None and any("std::collections::BTreeSet<nfa::StateIdx>" in f["ty"]
+                                       for v in adt["variants"] for f in v["fields"]) and \
+                    not any("HashSet<nfa::StateIdx" in f["ty"] for v in adt["variants"] for f in v["fields"]):
+                ok = True      # a work item struct that carries the ordered set
     ctx.ob("R-ORDER", "the sets of NFA states taken from the work list are ordered sets (BTreeSet)",
            ok, key="R-ORDER:btree", where=b["span"],
            detail="rule priority = order of accepting states in DFA::accepting; iterating a hash set "
